@@ -20,7 +20,7 @@ RULE = ("models and configurations as in C01 (vf/gen.py) plus pre-solve eval att
         "after the solve and fresh leaves created after the solve. Non-trivial = finite solve with status optimal and "
         ">= 1 derived object (decomposition over >= 2 leaves) evaluated and compared; distinct by case JSON.")
 TRUSTED = ["vf/sem.py", "numpy eigh for the PSD projection", "CLARABEL / SCS (status optimal only)"]
-ASSUMPTIONS = ["tolerances are scale-relative: 2e-5 (CLARABEL) / 2e-2 (SCS) times the magnitude of the terms involved"]
+ASSUMPTIONS = ["tolerances are scale-relative: 2e-5 (CLARABEL) / 2e-2 (SCS) times the magnitude of the terms involved; the Gram factorisation (a) is held to round-off, 1e-9 times the scale"]
 
 
 @st.composite
@@ -164,10 +164,12 @@ def check_case(case, ctx):
         proj = oracles.psd_projection(G_solver)
         err = float(np.max(np.abs(gram - proj)))
         ctx.observe("gram_error/scale:" + sc, err / gscale)
-        if err > k * gscale:
+        # factorising a given matrix is linear algebra, not optimisation: the tolerance is round-off (largest ratio
+        # observed on the unchanged tree over all tiers: 8e-16), not the solver tolerance k
+        if err > 1e-9 * gscale:
             ctx.fail("gram-mismatch" + (":drh" if opts.get("drh") else ""),
                      "inner products of evaluated leaf points differ from the PSD projection of the solver's Gram "
-                     "matrix by %.3e (tol %.1e)" % (err, k * gscale))
+                     "matrix by %.3e (tol %.1e)" % (err, 1e-9 * gscale))
         errG = float(np.max(np.abs(np.asarray(pep.G_value, dtype=float) - G_solver)))
         if errG > 1e-12 * gscale:
             ctx.fail("G_value-not-solver-gram", "PEP.G_value differs from the Gram matrix found by the solver by %.3e" % errG)
